@@ -24,8 +24,7 @@ ASSUMPTIONS = [
     "interpolant (model: recursion over the axes); IEEE rounding is outside the theorems over R "
     "(comparison tol 1e-10)",
     "parameter dictionaries have unique keys (Python dict); values are finite floats",
-    "points outside the grid are outside the property (1 axis extrapolates, >= 2 axes raise); recorded, "
-    "not compared",
+    "points outside the grid are outside the property; code and model extrapolate from the outermost cell (every dimension, F22) and are compared there too",
 ]
 TRUSTED = ["hand-written model HierArc/Model/KinScaling.lean tied by differential execution",
            "independent Python reference of the multilinear interpolant used by the oracle"]
@@ -127,7 +126,7 @@ def gen_points(rng, case, cap_nodes, n_interior):
             else:
                 x.append(rng.uniform(ax[0], ax[-1]))
         pts.append({"tag": "inside", "x": x})
-    # outside the grid: recorded, not compared
+    # outside the grid: linear extrapolation from the outermost cell (compared with the model)
     x = [rng.uniform(ax[0], ax[-1]) for ax in axes]
     j = rng.randrange(len(axes))
     x[j] = axes[j][-1] + rng.uniform(0.01, 1.0) if rng.random() < 0.5 else axes[j][0] - rng.uniform(0.01, 1.0)
@@ -468,7 +467,7 @@ def same_result(r, m, soft_counter=None):
     """implementation result r vs model result m"""
     if "e" in r or "e" in m:
         me = m.get("e")
-        me = {"OutOfBounds": "ValueError", "Shape": "Shape"}.get(me, me)
+        me = {"Shape": "Shape"}.get(me, me)
         return r.get("e") == me
     mv = unfl(m["v"])
     return len(mv) == len(r["v"]) and all(close(a, b, TOL) for a, b in zip(r["v"], mv))
@@ -491,11 +490,9 @@ def correspond(res, case, obs, outs):
             k += 1
         for r, m in pairs:
             if c["tag"] == "outside":
-                cls = "outside_grid:%d-axes:impl=%s" % (len(case["axes"]), r.get("e", "value"))
-                res.count(cls)
-                if not same_result(r, m):
-                    res.count("outside_grid:model_differs(not compared)")
-                continue
+                # beyond the axes both the code (after the F22 repair: every dimension) and the model extrapolate from the
+                # outermost cell: compared like every other point (descending axes: the implementation alone is exercised)
+                res.count("outside_grid:%d-axes:impl=%s" % (len(case["axes"]), r.get("e", "value")))
             if not same_result(r, m):
                 res.disagree("kin_scaling (%s): implementation %s, model %s"
                              % (c["tag"], r.get("v", r.get("e")),
@@ -594,7 +591,9 @@ LEVEL_TEXT = ("Lean 4 theorems over ℝ for the model of KinScaling (kwargs2para
               "bracketing nodes, weights ≥ 0 summing to 1, hence within their min/max), route_in_declared_order / "
               "route_by_name / route_perm_extra (invariant under dictionary permutation and extra keys), "
               "missing_raises / raises_only_if_missing, no_config_ones / not_configured_ones, bounds_minmax / "
-              "inside_iff_within_bounds.  The same definitions run at Float against KinScaling.kin_scaling, "
+              "inside_iff_within_bounds; evaluates_everywhere / no_range_error (with every declared name present the scaling is a value "
+              "for ANY coordinates — beyond the axes the multilinear form of the outermost cell; the only errors are a missing name and an "
+              "inconsistent configuration).  The same definitions run at Float against KinScaling.kin_scaling, "
               "LensLikelihood.kin_scaling and param_bounds_interpol on every generated case, and the property "
               "statement itself is evaluated on the real code (all nodes, interior points against an independent "
               "reference, shuffled dictionaries bit-identical, missing key → ValueError, no configuration → [1.0], "
@@ -602,6 +601,6 @@ LEVEL_TEXT = ("Lean 4 theorems over ℝ for the model of KinScaling (kwargs2para
 LEVEL_NOTE = ("trusted: Lean kernel + Mathlib; hand model of scipy interp1d / RegularGridInterpolator as the "
               "multilinear interpolant and of numpy C-order indexing (validated by correspondence, tol 1e-10); IEEE "
               "rounding outside the ℝ theorems; axes strictly ascending (descending axes validated on the "
-              "implementation only); behaviour outside the grid not part of the property (recorded only)")
+              "implementation only); behaviour outside the grid is not part of the property — it is modelled (extrapolation, no_range_error) and compared all the same")
 TECHNIQUE = ("Lean 4 proof (induction over axis / name / bin lists, ordered-field arithmetic) + "
              "model/implementation correspondence + property oracle on the implementation")
